@@ -80,7 +80,7 @@ impl Act {
     }
 }
 
-pub struct ChSys<K: Kind> {
+pub struct ChSys<K: KindInternals> {
     pub key: [u8; 32],
     pub nonce: Vec<u8>,
     pub stream: Stream,
@@ -96,7 +96,7 @@ pub struct ChSys<K: Kind> {
 
 pub const END_IETF: u128 = 1 << 38;
 
-impl<K: Kind> ChSys<K> {
+impl<K: KindInternals> ChSys<K> {
     pub fn limit(&self) -> u128 {
         self.stream.limit()
     }
@@ -255,7 +255,7 @@ impl<K: Kind> ChSys<K> {
     }
 }
 
-impl<K: Kind> Sys for ChSys<K> {
+impl<K: KindInternals> Sys for ChSys<K> {
     type S = St;
     type A = Act;
     fn init(&self) -> Vec<St> {
@@ -420,7 +420,7 @@ fn nonce_variant(v: u8, len: usize) -> Vec<u8> {
     }
 }
 
-fn run_kind<K: Kind>(rep: &mut Report, cfg: &Cfg) {
+fn run_kind<K: KindInternals>(rep: &mut Report, cfg: &Cfg) {
     let sys = std::sync::Arc::new(ChSys::<K>::new(key_pattern(2), nonce_variant(cfg.nonce_variant, K::NONCE_LEN), cfg.w, cfg.canonical, cfg.c11, cfg.dense_apply));
     CANONICAL_KEY.store(cfg.canonical, std::sync::atomic::Ordering::SeqCst);
     let t0 = std::time::Instant::now();
@@ -523,7 +523,7 @@ pub fn run(prop: &str, tier: &str, config: &str) -> Report {
 }
 
 pub fn replay(v: &Value) -> bool {
-    fn go<K: Kind>(v: &Value) -> Option<bool> {
+    fn go<K: KindInternals>(v: &Value) -> Option<bool> {
         if v["kind"].as_str()? != K::NAME {
             return None;
         }
